@@ -212,6 +212,13 @@ def run(prog: Program, ctx: Ctx) -> None:  # noqa: PLR0912,PLR0915
         ]),
     ]
     doc = {"kind": "module", "name": "shop", "filepath": "shop.py", "labels": [], "members": {m_["name"]: m_ for m_ in top_members}}
+    # docstrings as the writer emits them: present with text, present but empty (a placeholder `""""""`), absent
+    doc["docstring"] = {"value": "Module doc.", "lineno": 1, "endlineno": 1}
+    doc["members"]["Meta"]["docstring"] = {"value": "", "lineno": 2, "endlineno": 2}
+    doc["members"]["register"]["docstring"] = {"value": "", "lineno": 2, "endlineno": 3}
+    doc["members"]["top"]["docstring"] = {"value": "Doc of top.", "lineno": 2, "endlineno": 2}
+    doc["members"]["Model"]["members"]["x"]["docstring"] = {"value": "", "lineno": 2, "endlineno": 2}
+    written_docs = {"shop": "Module doc.", "shop.Meta": "", "shop.register": "", "shop.top": "Doc of top.", "shop.Model": None, "shop.Model.x": "", "shop.Model.Meta": None}
     root = None
     try:
         root = json.loads(json.dumps(doc), object_hook=lambda d: it.call(jd, d))
@@ -220,6 +227,18 @@ def run(prog: Program, ctx: Ctx) -> None:  # noqa: PLR0912,PLR0915
                f"the decoder loads a minimal document with every kind of object and members named `kind` / `cls`: members {names}", where(jd))
     except Raised as r:
         ctx.ob("R2", "decode|minimal document", False, f"the decoder raises {r.exc} on a minimal document (module, classes, functions, attributes as the writer emits them)", where(jd))
+
+    if isinstance(root, Obj):
+        def at(path: str) -> Obj:
+            o = root
+            for part in path.split(".")[1:]:
+                o = o.attrs["members"][part]
+            return o
+
+        for pth, wv in written_docs.items():
+            dsv = at(pth).attrs.get("docstring")
+            gv = it.getattr(dsv, "value") if isinstance(dsv, Obj) else dsv
+            ctx.ob("R2", f"docstring|{pth}", gv == wv, f"{pth}: written docstring {wv!r}, reloaded {gv!r} (an empty docstring is still a docstring: has_docstring, line span)", where(jd))
 
     def scope_of(e: object) -> str:
         """Scopes of all free names of an expression (one string when they agree); attribute chains must stay linked part to part."""
